@@ -80,8 +80,31 @@ def run(ctx):
     if foc:
         mb = F.main_body(foc)
         conds = edge_conditions(mb)
-        rm = calls_matching(mb, r"BufferedRaftLog::remove_range$")
-        ctx.floor("C04-c", len(rm), 1, "remove_range in filter_out_conflicts_and_append")
+        # truncation sites: remove_range called here, or inside a private BufferedRaftLog helper this function hands the
+        # truncation to (one level; the helper is treated as inlined: index provenance and the in-log guard are read at the
+        # helper's call site, the follow-up insert / ReplaceRange inside the helper)
+        # site = (outer block in mb, operand of the truncation index in mb, inner body, inner block, index operand in the inner body)
+        sites = [(bi, t["args"][1], mb, bi, t["args"][1]) for (bi, t) in calls_matching(mb, r"BufferedRaftLog::remove_range$")]
+        for (cbi, ct) in mb.calls():
+            for tg in F.resolve_targets(ct):
+                if tg not in F.bodies or tg == foc.id or not strip_generics(self_type_of(F, tg) or "").endswith("BufferedRaftLog"):
+                    continue
+                if re.search(r"::(remove_range|insert_to_memory|append_entries|reset|purge_logs_up_to)$", strip_generics(tg)):
+                    continue
+                hb = F.main_body(F.bodies[tg])
+                for (hbi, ht) in calls_matching(hb, r"BufferedRaftLog::remove_range$"):
+                    hs = Slice(F, hb, through_calls=True).operand(ht["args"][1])
+                    ps = [x[1] for x in hs.sources if x[0] == "param"]
+                    if not ps:      # async helper: its parameters are captured by the coroutine (upvars named like the parameters)
+                        outer = F.bodies[tg]
+                        for x in hs.sources:
+                            if x[0] == "upvar":
+                                for l in range(1, outer.argc + 1):
+                                    if outer.local_name(l) == str(x[1]).lstrip("*&"):
+                                        ps.append(l)
+                    if ps and ps[0] - 1 < len(ct["args"]):
+                        sites.append((cbi, ct["args"][ps[0] - 1], hb, hbi, ht["args"][1]))
+        ctx.floor("C04-c", len(sites), 1, "remove_range in filter_out_conflicts_and_append (or in the helper it hands the truncation to)")
         # closures of this function that compare entry_term(e.index) with e.term
         mism = []
         for b in F.group_bodies(foc):
@@ -97,9 +120,9 @@ def run(ctx):
                 mism.append(b)
         ctx.floor("C04-c", len(mism), 1, "closure comparing entry_term(e.index) with e.term")
         mism_ids = set(b.id for b in mism)
-        for (bi, t) in rm:
+        for (bi, iop, ib, ibi, iiop) in sites:
             # the truncation point derives from Iterator::position over such a closure
-            s = Slice(F, mb, through_calls=True).operand(t["args"][1])
+            s = Slice(F, mb, through_calls=True).operand(iop)
             from_pos = s.has_call(r"Iterator::position$") and any(x[0] == "closure" and x[1] in mism_ids for x in s.sources)
             ctx.check("C04-c", "%s#remove_range#from-term-mismatch" % fkey(foc), from_pos,
                       "truncation index = first incoming entry whose term differs from the local entry at that index",
@@ -110,15 +133,16 @@ def run(ctx):
                                                               lambda s: s.has_call(r"(RaftLog|BufferedRaftLog)::last_entry_id$")) in ("<=", "<"), conds)
             ctx.check("C04-c", "%s#remove_range#inside-log" % fkey(foc), okb, "truncation guarded by diverge_index <= last local index",
                       "tail truncation not guarded by a comparison with the last local index", loc(mb, bi), wit and bpath(mb, wit))
-            ins = [x for x, _ in calls_matching(mb, r"BufferedRaftLog::insert_to_memory$") if mb.dominates(bi, x)]
-            rr = [x for (x, si, st) in agg_sites(mb, "IOTask", "ReplaceRange") if mb.dominates(bi, x)]
+            ins = [x for x, _ in calls_matching(ib, r"BufferedRaftLog::insert_to_memory$") if ib.dominates(ibi, x)]
+            rr = [x for (x, si, st) in agg_sites(ib, "IOTask", "ReplaceRange") if ib.dominates(ibi, x)]
             ctx.check("C04-c", "%s#remove_range#then-insert-and-replace" % fkey(foc), bool(ins) and bool(rr),
                       "truncation is followed by insert_to_memory(tail) and an IOTask::ReplaceRange",
-                      "tail truncation is not followed by inserting the incoming tail and a ReplaceRange task (ins=%s rr=%s)" % (ins, rr), loc(mb, bi))
-            for (x, si, st) in agg_sites(mb, "IOTask", "ReplaceRange"):
-                tf = Slice(F, mb).operand(agg_field(st, "truncate_from"))
-                ctx.check("C04-c", "%s#ReplaceRange.truncate_from" % fkey(foc), bool(tf.seen & s.seen),
-                          "ReplaceRange.truncate_from is the truncation index", "ReplaceRange.truncate_from is not the index the memory log was truncated at", loc(mb, x))
+                      "tail truncation is not followed by inserting the incoming tail and a ReplaceRange task (ins=%s rr=%s)" % (ins, rr), loc(ib, ibi))
+            si_ = Slice(F, ib).operand(iiop)
+            for (x, _si, st) in agg_sites(ib, "IOTask", "ReplaceRange"):
+                tf = Slice(F, ib).operand(agg_field(st, "truncate_from"))
+                ctx.check("C04-c", "%s#ReplaceRange.truncate_from" % fkey(foc), bool(tf.seen & si_.seen),
+                          "ReplaceRange.truncate_from is the truncation index", "ReplaceRange.truncate_from is not the index the memory log was truncated at", loc(ib, x))
     # ---------------------------------------------------------------- C04-d
     bar = ctx.anchor(F.method, "ReplicationHandler", "build_append_request")
     if bar:
